@@ -48,6 +48,25 @@ class {cls}:
 _pk = [0]
 
 
+def class_src(cls, mod, v):
+    mode, dis, dflt, boom = VARIANTS[v]
+    attrs = ""
+    if mode is not None:
+        attrs += f"    MODE_NAME = {mode!r}\n"
+    if dis:
+        attrs += f"    DISABLED = {dis is True}\n"
+    if dflt:
+        attrs += f"    DEFAULT = {dflt is True}\n"
+    if not attrs:
+        attrs = "    pass\n"
+    return CLS_SRC.format(cls=cls, mod=mod, attrs=attrs, boom="        raise RuntimeError('constructor failure')" if boom else "")
+
+
+def all_classes(m):
+    """(class name, variant) of every class visible in a module: its own (K*) and the imported helper ones (H*)."""
+    return [(f"K{ci}", v) for ci, v in enumerate(m["classes"])] + [(f"H{ci}", v) for ci, v in enumerate(m.get("helper") or ())]
+
+
 def write_package(spec):
     """spec = list of modules; module = dict(fail=bool, classes=[variant index...]).  Returns (name, root dir)."""
     _pk[0] += 1
@@ -60,18 +79,19 @@ def write_package(spec):
         src = "import builtins\n"
         if m["fail"]:
             src += "raise ValueError('module level failure')\n"
+        if m.get("helper"):
+            # mode classes defined in a helper sub-package (not scanned itself) and imported into this module
+            lib = os.path.join(pkg, "lib")
+            os.makedirs(lib, exist_ok=True)
+            open(os.path.join(lib, "__init__.py"), "w").close()
+            hsrc = "import builtins\n"
+            for ci, v in enumerate(m["helper"]):
+                hsrc += class_src(f"H{ci}", f"m{mi}", v)
+            with open(os.path.join(lib, f"m{mi}.py"), "w") as f:
+                f.write(hsrc)
+            src += f"from .lib.m{mi} import " + ", ".join(f"H{ci}" for ci in range(len(m["helper"]))) + "\n"
         for ci, v in enumerate(m["classes"]):
-            mode, dis, dflt, boom = VARIANTS[v]
-            attrs = ""
-            if mode is not None:
-                attrs += f"    MODE_NAME = {mode!r}\n"
-            if dis:
-                attrs += f"    DISABLED = {dis is True}\n"
-            if dflt:
-                attrs += f"    DEFAULT = {dflt is True}\n"
-            if not attrs:
-                attrs = "    pass\n"
-            src += CLS_SRC.format(cls=f"K{ci}", mod=f"m{mi}", attrs=attrs, boom="        raise RuntimeError('constructor failure')" if boom else "")
+            src += class_src(f"K{ci}", f"m{mi}", v)
         with open(os.path.join(pkg, f"m{mi}.py"), "w") as f:
             f.write(src)
     importlib.invalidate_caches()
@@ -116,7 +136,7 @@ def discovery_model(spec, fms):
     for mi, m in enumerate(spec):
         if m["fail"]:
             continue
-        for ci, v in enumerate(m["classes"]):
+        for cn, v in all_classes(m):
             mode, dis, dflt, boom = VARIANTS[v]
             dis, dflt = dis is True, dflt is True
             if mode is None or dis:
@@ -124,7 +144,7 @@ def discovery_model(spec, fms):
             if boom:
                 ctor_fail = True
                 continue
-            healthy.append((f"m{mi}.K{ci}", mode, dflt))
+            healthy.append((f"m{mi}.{cn}", mode, dflt))
     names = [h[1] for h in healthy]
     dup = len(set(names)) != len(names)
     ndef = sum(1 for h in healthy if h[2])
@@ -147,7 +167,7 @@ def run_discovery(spec, fms, res):
     sel = None
     raised = None
     rp = dict(engine="selector", part="discovery", spec=spec, fms=fms)
-    desc = f"package {[(('FAIL ' if m['fail'] else '') + str([VARIANTS[v] for v in m['classes']])) for m in spec]} fms={fms}"
+    desc = f"package {[(('FAIL ' if m['fail'] else '') + str([VARIANTS[v] for v in m['classes']]) + (' + imported from a helper sub-package ' + str([VARIANTS[v] for v in m['helper']]) if m.get('helper') else '')) for m in spec]} fms={fms}"
     try:
         set_fms(fms)
         try:
@@ -177,7 +197,7 @@ def run_discovery(spec, fms, res):
             expected_inits = set(healthy_ids)
             # classes whose constructor raises are attempted too
             attempted_ok = set(i for i in inits)
-            extra = attempted_ok - expected_inits - {f"m{mi}.K{ci}" for mi, m in enumerate(spec) for ci, v in enumerate(m["classes"]) if VARIANTS[v][3] and VARIANTS[v][0] is not None and VARIANTS[v][1] is not True and not m["fail"]}
+            extra = attempted_ok - expected_inits - {f"m{mi}.{cn}" for mi, m in enumerate(spec) for cn, v in all_classes(m) if VARIANTS[v][3] and VARIANTS[v][0] is not None and VARIANTS[v][1] is not True and not m["fail"]}
             if extra:
                 res.violation("instantiated-unexpected-class", f"{desc}: instantiated {sorted(extra)} (disabled, unnamed or failing-module classes)", rp)
             missing = expected_inits - attempted_ok
@@ -230,6 +250,9 @@ def discovery_family(tier):
     M = lambda *cs: dict(fail=False, classes=list(cs))  # noqa: E731
     # three and four healthy classes sharing one MODE_NAME, spread over modules in different ways
     fam += [[M(1), M(1), M(1)], [M(1, 1), M(1)], [M(1), M(1, 1)], [M(1, 1), M(1, 1)], [M(1, 3), M(1), M(3, 1)], [M(2), M(1), M(1)], [M(1), M(7), M(1), M(1)]]
+    # mode classes that a module imports from a helper sub-package (they are found in the module like its own)
+    H = lambda own, helper: dict(fail=False, classes=list(own), helper=list(helper))  # noqa: E731
+    fam += [[H([], [1])], [H([], [2])], [H([3], [2])], [H([], [1, 4])], [H([1], [1])], [H([], [5])], [H([], [7])], [M(1), H([], [3])], [H([], [3]), M(2)], [H([], [1]), H([], [3])]]
     if tier == "thorough":
         fam += [[a, b] for a in one2 for b in one2 if len(a["classes"]) + len(b["classes"]) > 2]
         small = [m for m in one1 if m["fail"] or not m["classes"] or m["classes"][0] in (1, 2, 3, 7)]
